@@ -12,6 +12,7 @@ CONSTANTS
   MaxMsgs = 1000
   MaxLen = 1000
   Dev <- AllDev
+  Store = "dict"
 CONSTRAINT Record
 POSTCONDITION Post
 CHECK_DEADLOCK FALSE
